@@ -1,7 +1,123 @@
 import Mutagen.Driver.Util
+import Mutagen.Model.DaemonLock
 namespace Mutagen.Driver.C28
+open Mutagen.Driver Mutagen.Model.DaemonLock
 
-/-- Model-side handler for one line of the C28 correspondence stream. -/
-def handle (_line : String) : String := "unimplemented"
+/-!
+Line: `<n> <event> …` — the journal (one shared O_APPEND file, so one total
+order) of real processes `1..n` operating on one daemon lock file:
+
+* `c<p>:<cmd>`  process `p` is about to run `<cmd>`: `a` daemon.AcquireLock,
+                `r` Release, `n` NewLocker, `l` Lock(false), `u` Unlock,
+                `c` Close, `h` Held;
+* `r<p>=<res>`  it finished with `<res>` (`ok busy err refused yes no`);
+* `k<p>`        the parent is about to SIGKILL `p` (or tell it to exit);
+* `z<p>`        the parent has reaped `p`.
+
+System calls and deaths are not journalled: they are internal steps (`sys p`,
+`die p`) that may happen anywhere between the journalled events. The
+validator tracks the *set* of model states reachable by internal steps and
+requires every journalled event to be possible in at least one of them
+(weak trace inclusion). For every return event it prints the observed result
+if some tracked state produces it, else `!<position>:<results the model
+allows>` and stops.
+-/
+
+def parseCmd : String → Option Cmd
+  | "a" => some .acquire | "r" => some .release | "n" => some .new | "l" => some .lock
+  | "u" => some .unlock | "c" => some .close | "h" => some .held | _ => none
+
+def showRes : Res → String
+  | .ok => "ok" | .busy => "busy" | .err => "err" | .refused => "refused" | .yes => "yes" | .no => "no"
+
+/-- Finite projection used to compare states. -/
+def key (n : Nat) (s : State) : Option Nat × List Proc :=
+  (s.owner, (List.range (n + 1)).map s.procs)
+
+def insertNew (n : Nat) (seen : List (Option Nat × List Proc)) (acc : List State) (s : State) :
+    List (Option Nat × List Proc) × List State × Bool :=
+  let k := key n s
+  if seen.contains k then (seen, acc, false) else (k :: seen, s :: acc, true)
+
+/-- Closure under internal steps (`sys p`, `die p`), breadth first with fuel. -/
+def closure (n : Nat) (states : List State) : List State :=
+  let acts : List Action := (List.range (n + 1)).flatMap fun p => [Action.sys p, Action.die p]
+  let rec go (fuel : Nat) (seen : List (Option Nat × List Proc)) (all : List State) (frontier : List State) : List State :=
+    match fuel, frontier with
+    | 0, _ => all
+    | _, [] => all
+    | fuel + 1, s :: rest =>
+      let succs := acts.filterMap (step s)
+      let (seen, all, fresh) := succs.foldl
+        (fun (acc : List (Option Nat × List Proc) × List State × List State) s' =>
+          let (seen, all, fresh) := acc
+          let (seen', all', isNew) := insertNew n seen all s'
+          (seen', all', if isNew then s' :: fresh else fresh))
+        (seen, all, [])
+      go fuel seen all (rest ++ fresh)
+  let (seen, all) := states.foldl
+    (fun (acc : List (Option Nat × List Proc) × List State) s =>
+      let (seen, all, _) := insertNew n acc.1 acc.2 s; (seen, all)) ([], [])
+  go 100000 seen all all
+
+def resultOf (s : State) (p : Nat) : Option Res :=
+  match (s.procs p).pc with
+  | .done r => some r
+  | _ => none
+
+inductive Out | silent | tok (t : String) | reject (t : String)
+
+def event (n : Nat) (states : List State) (i : Nat) (tok : String) : List State × Out :=
+  let body := (tok.splitOn "=").headD ""
+  let obs := ((tok.splitOn "=").drop 1).headD ""
+  match body.toList with
+  | 'c' :: rest =>
+    match (String.ofList rest).splitOn ":" with
+    | [p, c] =>
+      match p.toNat?, parseCmd c with
+      | some p, some c =>
+        let next := states.filterMap fun s => step s (.call p c)
+        if next.isEmpty then ([], .reject s!"!{i}") else (closure n next, .silent)
+      | _, _ => ([], .reject s!"!{i}")
+    | _ => ([], .reject s!"!{i}")
+  | 'r' :: rest =>
+    match (String.ofList rest).toNat? with
+    | some p =>
+      let results := (states.filterMap fun s => resultOf s p).map showRes |>.eraseDups
+      if results.contains obs then
+        let next := states.filterMap fun s =>
+          if (resultOf s p).map showRes == some obs then step s (.ret p) else none
+        (closure n next, .tok obs)
+      else ([], .reject s!"!{i}:[{",".intercalate results}]")
+    | none => ([], .reject s!"!{i}")
+  | 'k' :: rest =>
+    match (String.ofList rest).toNat? with
+    | some p => (closure n (states.filterMap fun s => step s (.signal p)), .silent)
+    | none => ([], .reject s!"!{i}")
+  | 'z' :: rest =>
+    match (String.ofList rest).toNat? with
+    | some p =>
+      let next := states.filter fun s => !(s.procs p).alive
+      if next.isEmpty then ([], .reject s!"!{i}") else (next, .silent)
+    | none => ([], .reject s!"!{i}")
+  | _ => ([], .reject s!"!{i}")
+
+def runAll (n : Nat) : List State → Nat → List String → List String → List String
+  | _, _, [], acc => acc.reverse
+  | states, i, tok :: toks, acc =>
+    match event n states i tok with
+    | (_, .reject t) => (t :: acc).reverse
+    | (next, .silent) => runAll n next (i + 1) toks acc
+    | (next, .tok t) => runAll n next (i + 1) toks (t :: acc)
+
+def handle (line : String) : String :=
+  match fields line with
+  | n :: evs =>
+    match n.toNat? with
+    | some n =>
+      let outs := runAll n [init] 0 evs []
+      if outs.isEmpty then "-" else " ".intercalate outs
+    | none => "bad-line"
+  | _ => "bad-line"
 
 end Mutagen.Driver.C28
